@@ -57,4 +57,20 @@ def vr (c impl : List String) : Option Verdict := do
            "class=self-inconsistent-own-ra the received RA equals the own RA, which carries the same prefix (or route) twice with different lifetimes: each copy is reported against the other although the two RAs are identical"
          else "" }
 
+/-- `cfgmut | b`: after a neighbour's RA has been handled, does the configuration still produce the RA
+    it produced before (same system state)?  Handling a received RA never alters the configuration. -/
+def cfgmut (_c impl : List String) : Option Verdict := do
+  let b ← P.run P.bool impl
+  pure { model := "0", oracle := !b, nontrivial := false,
+         note := if b then "handling a received RA altered the configuration: the same system state no longer yields the same RA" else "" }
+
+/-- `vburst n | hooks counted`: `n` inconsistent RAs (one differing field each) arrive in a burst while
+    the first report is still being processed: every one of them is judged — `n` hook calls, `n`
+    counter increments. -/
+def vburst (c impl : List String) : Option Verdict := do
+  let n ← P.run P.nat c
+  let (h, k) ← P.run (do let a ← P.nat; let b ← P.nat; pure (a, b)) impl
+  pure { model := s!"{n} {n}", oracle := h == n && k == n, nontrivial := decide (n ≥ 2),
+         note := if h == n && k == n then "" else "a received RA was not judged (reports are shed under load), or judged more than once" }
+
 end Driver.C12
